@@ -923,6 +923,6 @@ func (c39Store) Structural(path string, mm Model) error {
 
 func init() {
 	core.Register(histProp{id: "C39", store: c39Store{}, maxLen: 60, quickN: 12, quickDocs: 4, thoroughN: 300,
-		rule:        "seeded histories of up to 60 attachment add/remove steps (1-3 names per step; random, ascending and descending runs, common-prefix, case-variant and non-ASCII names; removals from the left edge, right edge and random; removals of absent names; remove-all; re-insertion of the largest, smallest or a random present key) through the in-place file API, starting from a document without a name tree, from a prebuilt 3-4 level EmbeddedFiles tree, from three-level trees with fan-out 3 to 5 and 1 to 3 names per leaf written by an independent generator (the shape another producer may write; their names are removed and names sorting between them are inserted), and from a document that also has a Dests name tree. Between the attachment steps the **Dests** name tree is edited through bookmarks: bm-set replaces all bookmarks by 1-12 new ones whose titles (duplicates, common prefixes, case variants, non-ASCII) become keys of the tree - pdfcpu removes the old keys one by one and inserts the new ones - and bm-remove drops them. After every successful step the re-read file is walked raw (both trees): keys strictly ascending in byte order and unique, every non-root node's Limits equal to [min,max] of the keys below it, root without Limits, no node with both or neither of Kids/Names, no dangling value or kid reference, key set equal to the model's sorted map, bystander Dests tree unchanged; listing and extracted bytes equal the model. Half of the batches inject faults/crashes like C35. Distinct by (document, step sequence); non-trivial when a step succeeded.",
+		rule:        "seeded histories of up to 60 attachment add/remove steps (1-3 names per step; random, ascending and descending runs, common-prefix, case-variant and non-ASCII names; removals from the left edge, right edge and random; removals of absent names; remove-all; re-insertion of the largest, smallest or a random present key; one step in seven is a session of 2-10 interleaved insertions and removals on one in-memory document through the context API with a single write) through the in-place file API, starting from a document without a name tree, from a prebuilt 3-4 level EmbeddedFiles tree, from three-level trees with fan-out 3 to 5 and 1 to 3 names per leaf written by an independent generator (the shape another producer may write; their names are removed and names sorting between them are inserted), and from a document that also has a Dests name tree. Between the attachment steps the **Dests** name tree is edited through bookmarks: bm-set replaces all bookmarks by 1-12 new ones whose titles (duplicates, common prefixes, case variants, non-ASCII) become keys of the tree - pdfcpu removes the old keys one by one and inserts the new ones - and bm-remove drops them. After every successful step the re-read file is walked raw (both trees): keys strictly ascending in byte order and unique, every non-root node's Limits equal to [min,max] of the keys below it, root without Limits, no node with both or neither of Kids/Names, no dangling value or kid reference, key set equal to the model's sorted map, bystander Dests tree unchanged; listing and extracted bytes equal the model. Half of the batches inject faults/crashes like C35. Distinct by (document, step sequence); non-trivial when a step succeeded.",
 		assumptions: []string{"keys are compared in byte order of the stored strings; only names whose stored form is their UTF-8 file name are used", "inserting a present key: a sorted map replaces the value (here by the same bytes), pdfcpu keeps the entry and stores the new one under a derived key (name + suffix); both outcomes are accepted, everything else (uniqueness, order, limits, all other keys) is checked as usual; such steps carry no injected fault"}})
 }
